@@ -206,6 +206,47 @@ CORPUS = [
         ["stm", ["while", B(True), ["block", E(["bin", "+=", V("c"), I(1)]),
                                    ["stm", ["match", ["pre", "deref", V("c")], ["aval", [I(3)], ["block", ["stm", "break"]]], ["aother", ["block", ["stm", "continue"]]]]]]]],
         E(["pre", "deref", V("c")])]),
+    ("reduce-init-type-in-result", ["C01"], [
+        E(["reduce", ["post", ["slice", ["array", I(7)], I(1), None, None], "~"], ["c", ["f", 4602678819172646912]],
+           ["fn", [["acc", ["multi", "int", "float"]], ["x", "int"]], "int", [ret(V("x"))]]])]),
+    ("reduce-init-type-rejected-as-int", ["C01"], [
+        ["fndecl", "last_or", [["a", ["arr", "int"]]], "int", [
+            ret(["reduce", ["post", V("a"), "~"], ["c", ["f", 4602678819172646912]],
+                 ["fn", [["acc", ["multi", "int", "float"]], ["x", "int"]], "int", [ret(V("x"))]]])]],
+        E(["tuple", ["call", V("last_or"), ["array", I(3), I(4)]], ["call", V("last_or"), ["slice", ["array", I(1)], I(1), None, None]]])]),
+    ("loop-body-never-still-needs-return-for", ["C01", "C12"], [
+        ["fndecl", "first", [["a", ["arr", "int"]]], "int", [["stm", ["for", "x", ["post", V("a"), "~"], ["block", ret(V("x"))]]]]],
+        E(["tuple", ["call", V("first"), ["array", I(4)]], ["call", V("first"), ["slice", ["array", I(1)], I(1), None, None]]])]),
+    ("loop-body-never-still-needs-return-while", ["C01", "C12"], [
+        ["fndecl", "w", [["c", "bool"]], "int", [["stm", ["while", V("c"), ["block", ret(I(1))]]]]],
+        E(["call", V("w"), B(False)])]),
+    ("loop-body-never-still-needs-return-loop", ["C01", "C12"], [
+        ["fndecl", "w", [], "int", [["stm", ["loop", ["block", ["stm", "break"]]]]]],
+        E(["call", V("w")])]),
+    ("ifset-binder-does-not-leak", ["C01", "C06", "C12"], [
+        ["fndecl", "describe", [["v", ["multi", "int", "string"]], ["name", "string"]], "string", [
+            ["stm", ["ifset", "name", "int", V("v"), ["block", E(["bin", "+", V("name"), I(1)])], None]],
+            ret(V("name"))]],
+        E(["call", V("describe"), I(5), S("second")])]),
+    ("ifset-binder-cell-does-not-leak", ["C01", "C06", "C13"], [
+        ["set", "cell", ["expr", ["mut", None, I(1)]]], ["set", "text", ["expr", ["mut", None, S("a")]]],
+        ["fndecl", "pick", [["z", "int"]], ["multi", ["mut", "int"], ["mut", "string"]], [
+            ["stm", ["if", ["bin", ">", V("z"), I(0)], ["return", ["expr", V("text")]], None]], ret(V("cell"))]],
+        ["stm", ["ifset", "cell", ["mut", "string"], ["call", V("pick"), I(1)], ["block", E(["bin", "=", V("cell"), S("b")])], None]],
+        E(["tuple", ["pre", "deref", V("cell")], ["pre", "deref", V("text")]])]),
+    ("whileset-binder-does-not-leak", ["C06", "C12", "C17"], [
+        ["fndecl", "run", [["item", "string"]], "string", [
+            ["set", "queue", ["expr", ["array", I(1), I(2), S("end")]]], ["set", "pos", ["expr", ["mut", None, I(0)]]],
+            ["stm", ["whileset", "item", "int", ["at", V("queue"), ["pre", "deref", V("pos")]], ["block", E(["bin", "+=", V("pos"), I(1)])]]],
+            ret(V("item"))]],
+        E(["call", V("run"), S("none")])]),
+    ("break-after-constant-while-in-block-rejected", ["C12", "C02"], [
+        ["stm", ["block", ["stm", ["while", B(False), ["block", E(I(1))]]], ["stm", "break"]]], E(I(1))]),
+    ("continue-after-constant-while-in-function-rejected", ["C12", "C02"], [
+        ["fndecl", "f", [], None, [["stm", ["while", B(True), ["block", ["stm", "break"]]]], ["stm", ["if", B(True), ["block", ["stm", "continue"]], None]]]],
+        E(["call", V("f")])]),
+    ("break-after-constant-while-in-if-rejected", ["C12", "C02"], [
+        ["stm", ["if", B(True), ["block", ["stm", ["while", B(False), ["block"]]], ["stm", "break"]], None]], E(I(1))]),
     ("match-value-order", ["C07", "C12"], [
         ["set", "log", ["expr", ["mut", ["arr", "int"], ["array"]]]],
         ["fndecl", "t", [["n", "int"]], "int", [E(["bin", "+=", V("log"), ["array", V("n")]]), ret(V("n"))]],
